@@ -168,6 +168,13 @@ func near(got, exp float64, tol *big.Rat) (ok, exact bool, ratio float64) {
 	if math.IsNaN(got) || math.IsInf(got, 0) {
 		return false, false, math.Inf(1)
 	}
+	// Shortcut for the clear accept: the float64 difference and the float64 image of tol each carry
+	// a relative error below 2^-52, so a difference below tol by the margin 1e-9 is below it exactly.
+	if tf, _ := tol.Float64(); tf > 0 && !math.IsInf(tf, 0) {
+		if df := math.Abs(got - exp); df > 0x1p-1000 && df*(1+1e-9) <= tf*(1-1e-9) {
+			return true, false, df / tf
+		}
+	}
 	d := new(big.Rat).SetFloat64(got)
 	d.Sub(d, new(big.Rat).SetFloat64(exp))
 	d.Abs(d)
@@ -300,8 +307,20 @@ func (k *chk) cmpSame(routine, what string, got, before []float64) {
 
 func cloneF(s []float64) []float64 { return append([]float64(nil), s...) }
 
+// workPool backs the large workspaces of the "huge" class: a fresh allocation per call would spend
+// the replay in page faults.  It is dropped after a hang (the abandoned goroutine may still write).
+var workPool []float64
+
 func newWork(n int) []float64 {
-	w := make([]float64, n)
+	var w []float64
+	if n >= hugeWork/2 {
+		if cap(workPool) < n {
+			workPool = make([]float64, n+n/2)
+		}
+		w = workPool[:n:n]
+	} else {
+		w = make([]float64, n)
+	}
 	for i := range w {
 		w[i] = workFill
 	}
@@ -323,6 +342,7 @@ func (k *chk) run(routine string, f func()) bool {
 		return false
 	}
 	if o.Hung {
+		workPool = nil
 		k.fail(routine, "hang", "no return within %v", callLimit)
 		return false
 	}
@@ -359,6 +379,60 @@ func (k *chk) query(routine string, minw int, call func(work []float64), untouch
 		return opt, false
 	}
 	return opt, true
+}
+
+// lwv is one workspace length of the grid with the name of its class.
+type lwv struct {
+	name  string
+	lwork int
+}
+
+// hugeWork is added to the queried optimum for the "huge" class.
+const hugeWork = 1 << 16
+
+// lworkGrid is the workspace grid of the property ("every admissible workspace length"):
+// the documented minimum, the queried optimum, optimum+1, optimum + ld*n (for Dgesvd the
+// length from which the copy of the triangular factor is kept with the stride of A), 2*optimum+7
+// and a huge value.  Without a usable query only the minimum is returned.  Equal lengths are
+// listed once (first name wins).
+func lworkGrid(minw, opt int, ok bool, ld, n int) []lwv {
+	g := []lwv{{"min", minw}}
+	if !ok {
+		return g
+	}
+	for _, c := range []lwv{{"opt", opt}, {"opt+1", opt + 1}, {"opt+ld*n", opt + ld*n}, {"2*opt+7", 2*opt + 7}, {"huge", opt + hugeWork}} {
+		dup := false
+		for _, e := range g {
+			dup = dup || e.lwork == c.lwork
+		}
+		if !dup && c.lwork >= minw {
+			g = append(g, c)
+		}
+	}
+	return g
+}
+
+// innerGrid thins the grid of a routine nested inside another routine's grid: the full inner grid
+// under the first two outer classes (minimum, optimum), one inner class (rotating) under the others.
+func innerGrid(outer int, inner []lwv) []lwv {
+	if outer < 2 || len(inner) == 0 {
+		return inner
+	}
+	i := outer % len(inner)
+	return inner[i : i+1]
+}
+
+// gridNote counts one executed (key) combination of a driver's grid; the table is copied into the
+// stage details of the evidence when the replay ends.
+var gridTable = map[string]map[string]int{}
+
+func gridNote(table, key string) {
+	t := gridTable[table]
+	if t == nil {
+		t = map[string]int{}
+		gridTable[table] = t
+	}
+	t[key]++
 }
 
 func desc(parts ...any) string {
